@@ -1,7 +1,10 @@
 #!/bin/sh
-# Build the framework offline from files on disk: regenerate the extracted Lean from /repo, build library + driver.
-set -e
-cd "$(dirname "$0")"
+# Build the framework offline from files on disk: regenerate the extracted Lean from /repo, generate the per-property model
+# drivers, build library + drivers.  A target that does not build does not abort the setup: every check rebuilds the modules of
+# its own property and reports a failure there as a broken proof obligation of that property only.
+cd "$(dirname "$0")" || exit 1
 /venv/bin/python tools/extract.py --repo "${VERIF_REPO:-/repo}" || true
-/venv/bin/python tools/mkdrivers.py > /dev/null
-cd lean && lake build
+/venv/bin/python tools/mkdrivers.py > /dev/null || exit 1
+cd lean || exit 1
+lake build || echo "setup: some Lean targets did not build (reported by the check of the property they belong to)"
+exit 0
